@@ -422,7 +422,7 @@ func (P *Prog) checkKeyedByOwnPath(r *Result) {
 	} else {
 		r.bad("C10/keyed-by-own-path", "NewError#no-internal-caller", "-", fmt.Sprintf("%d internal call(s) of the deprecated NewError(path, e): issues can be filed under a key different from their Path", callers))
 	}
-	r.floor("C10/keyed-by-own-path", 2)
+	r.floor("C10/keyed-by-own-path", 1)
 }
 
 func (P *Prog) checkSegmentSource(r *Result) {
@@ -551,7 +551,7 @@ func (P *Prog) checkSegmentSource(r *Result) {
 			r.ok("C10/segment-source", c, P.pos(fn.Pos()), "field path segment = the key the field was resolved with")
 		}
 	}
-	r.floor("C10/segment-source", 2)
+	r.floor("C10/segment-source", 1)
 }
 
 // valueDerivesFrom: v equals x or is a load of a local that was stored x.
@@ -590,6 +590,60 @@ func valueDerivesFrom(v, x ssa.Value, depth int) bool {
 	return false
 }
 
+// tagPriorityByInterpretation runs GetKeyFromField in the interpreter of symexec.go on every combination of
+// (tag pointer nil / set, the source tag present on the field or not, the zog tag present or not) and compares the
+// key returned with the documented priority. "ok", "bad" (with the offending class) or "undecided".
+func (P *Prog) tagPriorityByInterpretation(fn *ssa.Function) (string, string) {
+	if len(fn.Params) != 3 {
+		return "undecided", "unexpected signature"
+	}
+	for _, tagNil := range []bool{true, false} {
+		for _, srcPresent := range []bool{true, false} {
+			for _, zogPresent := range []bool{true, false} {
+				oracle := func(callee string, args []symVal) (symVal, bool) {
+					if callee != "(reflect.StructTag).Lookup" || len(args) != 2 || args[1].kind != svStr {
+						return symVal{}, false
+					}
+					switch args[1].name {
+					case "SRC":
+						return symVal{kind: svTuple, tuple: []symVal{{kind: svStr, name: "value of the source tag"}, {kind: svBool, b: srcPresent}}}, true
+					case `"zog"`:
+						return symVal{kind: svTuple, tuple: []symVal{{kind: svStr, name: "value of the zog tag"}, {kind: svBool, b: zogPresent}}}, true
+					}
+					return symVal{}, false
+				}
+				se := newSymExec(oracle)
+				tag := symVal{kind: svPtr}
+				if !tagNil {
+					tag.cell = &svCell{v: symVal{kind: svStr, name: "SRC"}}
+				}
+				class := fmt.Sprintf("tag nil: %v, source tag present: %v, zog tag present: %v", tagNil, srcPresent, zogPresent)
+				if !se.run(fn, []symVal{{}, {kind: svStr, name: "the schema key"}, tag}) {
+					if se.panics != "" {
+						return "bad", class + ": panics (" + se.panics + ")"
+					}
+					return "undecided", se.problem
+				}
+				want := "the schema key"
+				switch {
+				case !tagNil && srcPresent:
+					want = "value of the source tag"
+				case zogPresent:
+					want = "value of the zog tag"
+				}
+				if len(se.ret) != 1 || se.ret[0].kind != svStr || se.ret[0].name != want {
+					got := "?"
+					if len(se.ret) == 1 {
+						got = se.ret[0].String()
+					}
+					return "bad", class + ": returns " + got + ", documented: " + want
+				}
+			}
+		}
+	}
+	return "ok", ""
+}
+
 func (P *Prog) checkTagPriority(r *Result, rule string) {
 	fn := P.fn("zog/internals.GetKeyFromField")
 	if fn == nil {
@@ -621,8 +675,14 @@ func (P *Prog) checkTagPriority(r *Result, rule string) {
 	wantS = strings.ReplaceAll(wantS, "*ctx", "*tag")
 	wantS = strings.ReplaceAll(wantS, "ctx ", "tag ")
 	wantS = strings.ReplaceAll(wantS, "(ctx", "(tag")
-	if gs2 == wantS {
+	if gs2 == wantS || tablesEquiv(parseDecisionRows(gs2), parseDecisionRows(wantS)) {
 		r.ok(rule, fname(fn), P.pos(fn.Pos()), "source tag (if the provider has one), then zog tag, then schema key")
+	} else if verdict, detail := P.tagPriorityByInterpretation(fn); verdict == "ok" {
+		// not a chain of ifs (a loop over a list of candidate tags, say): the function depends on its input only
+		// through (tag nil?, source tag present?, zog tag present?), so it is interpreted on those 8 classes
+		r.ok(rule, fname(fn), P.pos(fn.Pos()), "source tag (if the provider has one), then zog tag, then schema key (decided by interpretation on the 8 input classes)")
+	} else if verdict == "bad" {
+		r.bad(rule, fname(fn), P.pos(fn.Pos()), "key resolution is not: source-specific tag, else `zog` tag, else schema key", detail)
 	} else {
 		r.bad(rule, fname(fn), P.pos(fn.Pos()), "key resolution is not: source-specific tag, else `zog` tag, else schema key", "expected:\n"+wantS, "found:\n"+gs2)
 	}
@@ -816,7 +876,7 @@ func (P *Prog) checkProviderTagTable(r *Result) {
 	}
 	// every GetByField passes the provider's own tag field (or its package constant) and its own Get
 	P.checkGetByFieldAgreement(r, "C10/provider-tag-table")
-	r.floor("C10/provider-tag-table", 8)
+	r.floor("C10/provider-tag-table", 5)
 }
 
 var ownFieldPath = regexp.MustCompile(`^recv(\.[A-Za-z_][A-Za-z0-9_]*)+$`)
@@ -971,12 +1031,24 @@ func (P *Prog) checkSanitizeAgreement(r *Result) {
 						continue
 					}
 					c, ok := mu.Value.(*ssa.Call)
-					if !ok || callOf(c).static == nil || callOf(c).static.Name() != "SanitizeList" {
-						problems = append(problems, "SanitizeMap does not store SanitizeList of the list under the same key")
+					if !ok || callOf(c).static == nil {
+						problems = append(problems, "SanitizeMap does not store the sanitized list under the same key")
 						continue
 					}
-					if !valueDerivesFrom(c.Call.Args[len(c.Call.Args)-1], l.val, 4) {
+					// the value is the message projection (SanitizeList or the helper it shares with it) of the
+					// list stored under the visited key
+					ai := -1
+					for k, a := range c.Call.Args {
+						if valueDerivesFrom(a, l.val, 4) {
+							ai = k
+						}
+					}
+					if ai < 0 {
 						problems = append(problems, "SanitizeMap sanitizes a list other than the one stored under the visited key")
+						continue
+					}
+					if !P.messageProjection(callOf(c).static, ai, 0) {
+						problems = append(problems, "SanitizeMap does not store the messages of the list under the same key, one per issue in order")
 						continue
 					}
 					okM = true
@@ -996,40 +1068,79 @@ func (P *Prog) checkSanitizeAgreement(r *Result) {
 	}
 	if fn := P.fn("(*zog.issueHelpers).SanitizeList"); fn != nil {
 		r.sawFunc(fname(fn))
-		arg := ssa.Value(fn.Params[1])
-		lenOK, idxOK := false, false
-		eachInstr(fn, func(_ *ssa.BasicBlock, _ int, in ssa.Instruction) {
-			if ms, ok := in.(*ssa.MakeSlice); ok {
-				if c, ok := ms.Len.(*ssa.Call); ok && callOf(c).builtin == "len" && cv(c.Call.Args[0]) == arg {
-					lenOK = true
-				}
-			}
-			if st, ok := in.(*ssa.Store); ok {
-				if ia, ok := st.Addr.(*ssa.IndexAddr); ok {
-					// value: (*l[i]).Message with the same index
-					if _, f := loadOfField(cv(st.Val)); f != nil && f.Name() == "Message" {
-						b, _ := loadOfField(cv(st.Val))
-						if ld, ok := cv(b).(*ssa.UnOp); ok {
-							if ia2, ok := ld.X.(*ssa.IndexAddr); ok && cv(ia2.X) == arg && sameValue(ia2.Index, ia.Index) {
-								idxOK = true
-							}
-						}
-					}
-				}
-			}
-		})
-		if !(lenOK && idxOK) && appendsOnePerElement(fn, arg, "Message") {
-			lenOK, idxOK = true, true
-		}
-		if lenOK && idxOK {
+		if P.messageProjection(fn, 1, 0) {
 			r.ok("C10/sanitize-agreement", "SanitizeList", P.pos(fn.Pos()), "errs[i] = l[i].Message, len(errs) == len(l)")
 		} else {
-			r.bad("C10/sanitize-agreement", "SanitizeList", P.pos(fn.Pos()), fmt.Sprintf("SanitizeList does not produce one message per issue at the same index (length ok: %v, index agreement: %v)", lenOK, idxOK))
+			r.bad("C10/sanitize-agreement", "SanitizeList", P.pos(fn.Pos()), "SanitizeList does not produce one message per issue at the same index")
 		}
 	} else {
 		r.undecided("C10/sanitize-agreement", "SanitizeList", "-", "function not found")
 	}
-	r.floor("C10/sanitize-agreement", 2)
+	r.floor("C10/sanitize-agreement", 1)
+}
+
+// messageProjection: fn returns, for its parameter #pidx (a list of issues), the list of their messages, one
+// per issue at the same index: built in fn itself (index assignment into make(len), or one append per element of
+// a full index loop), or returned from another module function that is such a projection of the same list.
+func (P *Prog) messageProjection(fn *ssa.Function, pidx int, depth int) bool {
+	if fn == nil || fn.Blocks == nil || pidx >= len(fn.Params) || depth > 3 {
+		return false
+	}
+	arg := ssa.Value(fn.Params[pidx])
+	lenOK, idxOK := false, false
+	eachInstr(fn, func(_ *ssa.BasicBlock, _ int, in ssa.Instruction) {
+		if ms, ok := in.(*ssa.MakeSlice); ok {
+			if c, ok := ms.Len.(*ssa.Call); ok && callOf(c).builtin == "len" && cv(c.Call.Args[0]) == arg {
+				lenOK = true
+			}
+		}
+		if st, ok := in.(*ssa.Store); ok {
+			if ia, ok := st.Addr.(*ssa.IndexAddr); ok {
+				// value: (*l[i]).Message with the same index
+				if b, f := loadOfField(cv(st.Val)); f != nil && f.Name() == "Message" {
+					if ld, ok := cv(b).(*ssa.UnOp); ok {
+						if ia2, ok := ld.X.(*ssa.IndexAddr); ok && cv(ia2.X) == arg && sameValue(ia2.Index, ia.Index) {
+							idxOK = true
+						}
+					}
+				}
+			}
+		}
+	})
+	if lenOK && idxOK {
+		return true
+	}
+	if appendsOnePerElement(fn, arg, "Message") {
+		return true
+	}
+	// delegation: every return is the projection computed by another function for the same list
+	n, all := 0, true
+	eachInstr(fn, func(_ *ssa.BasicBlock, _ int, in ssa.Instruction) {
+		rt, ok := in.(*ssa.Return)
+		if !ok {
+			return
+		}
+		vals, ok := retVals(rt)
+		if !ok || len(vals) != 1 {
+			return
+		}
+		n++
+		c, ok := cv(vals[0]).(*ssa.Call)
+		if !ok || callOf(c).static == nil || !inModule(funcPkgPath(callOf(c).static)) {
+			all = false
+			return
+		}
+		ai := -1
+		for k, a := range c.Call.Args {
+			if cv(a) == arg {
+				ai = k
+			}
+		}
+		if ai < 0 || !P.messageProjection(callOf(c).static, ai, depth+1) {
+			all = false
+		}
+	})
+	return n > 0 && all
 }
 
 // appendsOnePerElement recognises the other way of writing an index-preserving
@@ -1371,12 +1482,19 @@ func (P *Prog) checkPathWriters(r *Result) {
 			if !ok {
 				return
 			}
-			if _, f := fieldVar(st.Addr); f == nil || !sameField(f, pathF) {
-				return
+			base, f := fieldVar(st.Addr)
+			if f == nil || !sameField(f, pathF) {
+				// a whole-struct store `*e = ZogIssue{...}` writes the path as well
+				if !P.isPtrTo(st.Addr.Type(), R.ZogIssue) {
+					return
+				}
+				if _, isAlloc := st.Addr.(*ssa.Alloc); isAlloc {
+					return // a local issue value being built
+				}
+				base = st.Addr
 			}
 			n++
 			c := fmt.Sprintf("%s#Path@%d", fname(fn), n)
-			base, _ := fieldVar(st.Addr)
 			if allowed[fname(fn)] || fn.Synthetic != "" {
 				r.ok("C10/path-writers", c, P.ipos(in), "path written while the issue is being built")
 			} else if P.freshPooled(base, 0) {
@@ -1409,5 +1527,5 @@ func (P *Prog) checkPathWriters(r *Result) {
 			}
 		})
 	}
-	r.floor("C10/path-writers", 4)
+	r.floor("C10/path-writers", 2)
 }
